@@ -162,7 +162,14 @@ func (s *gates) start(g int, p program) {
 			s.arrivals <- arrival{g: g, point: -1} // start gate
 			<-s.release[g]
 		}
-		res := p()
+		res := func() (r string) {
+			defer func() {
+				if x := recover(); x != nil {
+					r = fmt.Sprintf("PANIC %v", x)
+				}
+			}()
+			return p()
+		}()
 		s.arrivals <- arrival{g: g, done: true, res: res}
 	}()
 }
@@ -391,7 +398,7 @@ func raceCorpus(s *sharedState, yield bool) []raceOp {
 	paths := []string{
 		`$`, `$.l`, `$.l[0].a`, `$.l[*].a`, `$..a`, `$..*`, `$.l[0,1,2]`, `$.l[1:5:2]`, `$.l[::-1]`, `$.l[*,0]`, `$.l[0,*]`, `$.m[*,*]`, `$.m['q','r']`,
 		`$.l[?(@.a)]`, `$.l[?(!@.b)]`, `$.l[?(@.a == 2)]`, `$.l[?(2 == @.a)]`, `$.l[?(@.a != 2)]`, `$.l[?(@.a < 3)]`, `$.l[?(@.a <= 3)]`, `$.l[?(@.a > 18)]`, `$.l[?(@.a >= 18)]`,
-		`$.l[?(@.a == $.x)]`, `$.l[?($.x == 2)]`, `$.l[?(1 == 2)]`, `$.l[?(1 < $.x)]`, `$.l[?($.x > @.a)]`, `$.l[?(@.zz != $.zz)]`, `$.l[?(@.a =~ /a/)]`, `$.l[?(@.a == 1 || @.a == 3)]`,
+		`$.l[?(@.a == $.x)]`, `$.l[?($.x == 2)]`, `$.l[?($.x == 3)]`, `$.l[?(1 == 2)]`, `$.l[?(1 < $.x)]`, `$.l[?(3 < $.x)]`, `$.l[?(3 <= $.x)].a`, `$.l[?($.x > @.a)]`, `$.l[?(@.zz != $.zz)]`, `$.l[?(@.a =~ /a/)]`, `$.l[?(@.a == 1 || @.a == 3)]`,
 		`$.l[?(@.a > 1 && @.a < 4)]`, `$.l[?(@.a.twice() == 4)]`, `$.l[*].a.sum()`, `$..a.sum()`, `$.l[?(@.a)].a.sum().twice()`, `$.m.r[?(@ > 1)]`, `$.m..[?(@)]`, `$.l[?($)]`, `$.l[?(!$.nosuch)].a`,
 		`$.nosuch`, `$.l.a`, `$.x[0]`,
 	}
@@ -433,13 +440,16 @@ func raceMain(args []string) {
 	}
 	res := result{}
 	for _, yield := range []bool{false, true} {
-		ops := raceCorpus(s, yield)
-		res.Ops = len(ops)
-		want := make([]string, len(ops))
-		for i, o := range ops {
+		// expected results come from a second, independently parsed corpus: the shared functions of `ops`
+		// must see their very first calls concurrently (lazily built state in the tree shows only then)
+		ref := raceCorpus(s, yield)
+		want := make([]string, len(ref))
+		for i, o := range ref {
 			want[i] = o.run()
 		}
 		for _, ng := range []int{2, 4, 16} {
+			ops := raceCorpus(s, yield) // fresh shared functions for every group of goroutines
+			res.Ops = len(ops)
 			var wg sync.WaitGroup
 			var calls int64
 			var mu sync.Mutex
@@ -454,8 +464,8 @@ func raceMain(args []string) {
 					for r := 0; r < *rounds*n/ng+n/2; r++ {
 						x = x*6364136223846793005 + 1442695040888963407
 						i := int((x >> 33) % uint64(n))
-						if r < n && g%2 == 0 {
-							i = (r + g) % n // everybody also walks the corpus in lock step at first: same function at the same time
+						if r < n && g%4 != 3 {
+							i = r % n // most goroutines first walk the corpus in lock step: the FIRST calls of a shared function overlap
 						}
 						got := ops[i].run()
 						atomic.AddInt64(&calls, 1)
@@ -502,6 +512,8 @@ func stressTraceMain(args []string) {
 	var events []ev
 	ids := map[string]int{}
 	gids := map[int]int{}
+	var keepAlive []interface{}
+	defer func() { _ = keepAlive }()
 	jsonpath.VerifHook = func(point int, id interface{}) {
 		// the sequence number is taken while the resource is held: after Get / before Put, inside the mutex
 		mu.Lock()
@@ -515,6 +527,9 @@ func stressTraceMain(args []string) {
 		}
 		b := 0
 		if id != nil {
+			// keep every pooled object alive: an object the library never puts back would otherwise be
+			// collected and its address re-used by a NEW object, which would look like a double Get
+			keepAlive = append(keepAlive, id)
 			k := fmt.Sprintf("%p", id)
 			if _, ok := ids[k]; !ok {
 				ids[k] = len(ids) + 1
